@@ -350,8 +350,20 @@ func runC03(c *run.Ctx) {
 	}
 	// route (c): the binary, a few queries on pod-only worlds
 	if podOnly && c.Idx%4 == 0 && len(pods) >= 2 {
-		for k := 0; k < 6; k++ {
+		nq := 6
+		sharedName := false
+		for _, f := range w.Features {
+			if f == "policyNameSharedAcrossNamespaces" {
+				sharedName, nq = true, 14
+			}
+		}
+		for k := 0; k < nq; k++ {
 			s, d := pods[g.Intn(len(pods))], pods[g.Intn(len(pods))]
+			if sharedName && k >= 6 { // pod-to-pod across namespaces, where both same-named policies matter
+				for try := 0; try < 8 && s.wl.Ns == d.wl.Ns; try++ {
+					d = pods[g.Intn(len(pods))]
+				}
+			}
 			if s.wl == d.wl {
 				continue
 			}
@@ -367,6 +379,9 @@ func runC03(c *run.Ctx) {
 			what := ""
 			var want bool
 			mode := k % 3
+			if sharedName && k >= 6 {
+				mode = 0
+			}
 			var a uint32
 			if len(addrs) > 0 {
 				a = addrs[g.Intn(len(addrs))]
